@@ -103,11 +103,13 @@ def other_targets():
                       calls=[(r'^max\|', 'nv_max_u64({0}, {1})'), (r'^hardware_concurrency\|', 'nv_hardware_concurrency()')])
     ctor = Fn('pool_ctor', SRC, 'pool_t', flt='pool_t::pool_t', kinds=('CXXConstructorDecl',),
               select=lambda d: astload.param_types(d) == ['const size_t'],
-              calls=[(r'^clamp\|', 'nv_clamp_u64({0}, {1}, {2})'), (r'^max_size\|', 'pool_max_size()'),
+              calls=[(r'^ctor\|nano::parallel::queue_t\|void \(\)', 'nv_queue_make()'), (r'^clamp\|', 'nv_clamp_u64({0}, {1}, {2})'), (r'^max_size\|', 'pool_max_size()'),
                      (r'^transform\|', 'nv_spawn_threads({0}, {1}, {2})'), (r'^back_inserter\|', '{&0}')],
               members=[(r'^reserve\|std::vector<nano::parallel::worker_t', 'nv_workers_reserve'),
                        (r'^emplace_back\|std::vector<nano::parallel::worker_t', 'nv_workers_emplace_back({self}, {&0}, {1})'),
                        (r'^(begin|end)\|std::vector<nano::parallel::worker_t', '({self})')], **pcommon)
+    qctor = lambda: Fn('queue_ctor', SRC, 'queue_t', flt='queue_t::queue_t', kinds=('CXXConstructorDecl',), self_struct='struct nv_queue',
+                       types=TYPES, uf_float=False)
     dtor = Fn('pool_dtor', SRC, '~pool_t', flt='pool_t::~pool_t', kinds=('CXXDestructorDecl',), dtors=DTORS, hooks=[stop_write_hook],
               calls=LOCKS + ITER_OPS + [(r'^operator\*\|.*__normal_iterator<std::thread', '(*nv_thread_at({0}))')],
               members=[(r'^notify_all\|std::condition_variable', 'nv_notify_all_d({self}, self)'), (r'^begin\|std::vector<std::thread', '((uint64_t)0)'),
@@ -133,7 +135,7 @@ def other_targets():
     enl = Fn('enqueue_no_lock', TU, 'enqueue_no_lock', flt='nano::parallel::queue_t::enqueue_no_lock', select=mangled('op_range_tIlE'), **qcommon)
     enq = Fn('enqueue', TU, 'enqueue', flt='nano::parallel::queue_t::enqueue', select=lambda d: astload.template_args(d) == ['const nvdrv::fn_t &'], **qcommon)
     return [Target('worker_run', [run, pred()], W), Target('worker_wait_pred', [pred()], W), Target('worker_ctor', [wctor], W),
-            Target('pool_ctor', [ctor, maxs()], C), Target('pool_max_size', [maxs()], C), Target('pool_dtor', [dtor], C),
+            Target('pool_ctor', [ctor, maxs(), qctor()], C), Target('queue_ctor', [qctor()], C), Target('pool_max_size', [maxs()], C), Target('pool_dtor', [dtor], C),
             Target('section_block', [block], B), Target('section_dtor', [sdtor], B),
             Target('enqueue_no_lock', [enl], Q), Target('enqueue', [enq], Q)]
 
@@ -182,7 +184,7 @@ def build(tier):
             'std::vector::emplace_back appends one element; std::transform + back_inserter appends one output per input; range-for visits begin..end',
             'std::packaged_task(f) holds f, get_future() returns its future, moving it leaves it empty; shared_future::get() waits then rethrows, wait() waits',
             'queue_t::enqueue_no_lock as used inside map is modelled by the values the pushed lambda captures (checked by-copy); its own body is verified in target enqueue_no_lock',
-            'worker_t::m_queue (a reference member) is modelled as the worker\'s own view of the queue; default-constructed queue_t has m_stop == false and no tasks (default member initialiser, not extracted)',
+            'worker_t::m_queue (a reference member) is modelled as the worker\'s own view of the queue',
             'the user operator is opaque and, in the contracts, does not throw'],
         'trusted': [],
     }
